@@ -283,10 +283,10 @@ def invoke_specs(draw, max_calls=5, stencil_types=None, builtins=True):
     stencil_types = stencil_types or STENCILS
     nfld = draw(st.integers(2, 5))
     # few distinct spaces so that built-ins and any-space labels can share
-    pool = draw(st.lists(st.sampled_from(CONTINUOUS + DISCONTINUOUS),
-                         min_size=1, max_size=3, unique=True))
-    if not any(p in CONTINUOUS for p in pool) and draw(st.integers(0, 3)):
-        pool[0] = draw(st.sampled_from(CONTINUOUS))
+    ncont, ndisc = draw(st.sampled_from(
+        [(1, 1), (1, 1), (1, 1), (2, 1), (1, 2), (1, 0), (2, 0), (0, 1)]))
+    pool = draw(st.permutations(CONTINUOUS))[:ncont] + \
+        draw(st.permutations(DISCONTINUOUS))[:ndisc]
     fields = [draw(st.sampled_from(pool)) for _ in range(nfld)]
     ncall = draw(st.integers(1, max_calls))
     extents = {}
